@@ -241,8 +241,9 @@ class NumpyBackend(BackendBase[NumericArray]):
                 msg = f"Incompatible shapes {out.shape} != {shape_out}"
                 raise ValueError(msg)
 
-            # prepare input with boundary conditions
-            arr_full = np.empty(shape_in_full, dtype=arr.dtype)
+            # prepare input with boundary conditions (initialized, since some
+            # conditions, e.g. `normal_*`, do not set all ghost cells)
+            arr_full = np.zeros(shape_in_full, dtype=arr.dtype)
             arr_full[(..., *grid._idx_valid)] = arr  # type: ignore
             bcs.set_ghost_cells(arr_full, args=args)
 
